@@ -44,7 +44,7 @@ theorem length_tyTail_lt_printTy (t : UTy) : (tyTail t).length < (printTy t).len
 
 /-- the definitions up to `END` -/
 theorem bodyLoop_defs (defs : List UDefinition) (hw : defs.all definitionWf = true)
-    (hnw : defs.all (fun d => tyNoWiden d.ty) = true) (hk : defs.all (fun d => tyNoKwRef d.ty) = true) :
+    (hnw : defs.all (fun d => tyNoWiden d.ty) = true) :
     ∀ fuel : Nat, (printDefs defs).length < fuel + 1 →
       bodyLoop fuel (printDefs defs) = .ok { definitions := defs.map canonDefinition } := by
   induction defs with
@@ -55,7 +55,7 @@ theorem bodyLoop_defs (defs : List UDefinition) (hw : defs.all definitionWf = tr
     rw [bodyLoop]; simp [eqIC_END]
   | cons d tl ih =>
     intro fuel hf
-    simp only [List.all_cons, Bool.and_eq_true] at hw hnw hk
+    simp only [List.all_cons, Bool.and_eq_true] at hw hnw
     have hname := hw.1
     simp only [definitionWf, topNameWf, Bool.and_eq_true, Bool.not_eq_true'] at hname
     have hprint : printDefs (d :: tl) =
@@ -65,20 +65,19 @@ theorem bodyLoop_defs (defs : List UDefinition) (hw : defs.all definitionWf = tr
     simp only [List.length_cons, List.length_append] at hf
     obtain ⟨f, rfl⟩ : ∃ f, fuel = f + 1 := ⟨fuel - 1, by omega⟩
     have hty := length_tyTail_lt_printTy d.ty
-    have hdef := readDefinition_print d f (printDefs tl) hw.1 hnw.1 hk.1 (restOk_printDefs tl hw.2)
+    have hdef := readDefinition_print d f (printDefs tl) hw.1 hnw.1 (restOk_printDefs tl hw.2)
       (by omega)
     rw [bodyLoop]
     simp only [eqTextIC_text, hname.1.1.1.1, hname.1.1.1.2, Bool.false_eq_true, if_false,
       peekIsSep_cons, eqSep_sep, beq_self_eq_true, if_true, hdef, FR.bind_ok,
-      ih hw.2 hnw.2 hk.2 f (by omega)]
+      ih hw.2 hnw.2 f (by omega)]
     rfl
 
 /-- value references, then the definitions up to `END` -/
 theorem bodyLoop_items (vrs : List UValueReference) (defs : List UDefinition)
     (hv : vrs.all valueReferenceWf = true) (hvnw : vrs.all (fun v => tyNoWiden v.ty) = true)
-    (hvk : vrs.all (fun v => tyNoKwRef v.ty) = true)
     (hw : defs.all definitionWf = true)
-    (hnw : defs.all (fun d => tyNoWiden d.ty) = true) (hk : defs.all (fun d => tyNoKwRef d.ty) = true) :
+    (hnw : defs.all (fun d => tyNoWiden d.ty) = true) :
     ∀ fuel : Nat, (printItems vrs defs).length < fuel + 1 →
       bodyLoop fuel (printItems vrs defs) =
         .ok { definitions := defs.map canonDefinition
@@ -86,10 +85,10 @@ theorem bodyLoop_items (vrs : List UValueReference) (defs : List UDefinition)
   induction vrs with
   | nil =>
     intro fuel hf
-    simpa [printItems] using bodyLoop_defs defs hw hnw hk fuel (by simpa [printItems] using hf)
+    simpa [printItems] using bodyLoop_defs defs hw hnw fuel (by simpa [printItems] using hf)
   | cons v tl ih =>
     intro fuel hf
-    simp only [List.all_cons, Bool.and_eq_true] at hv hvnw hvk
+    simp only [List.all_cons, Bool.and_eq_true] at hv hvnw
     have hname := hv.1
     simp only [valueReferenceWf, topNameWf, Bool.and_eq_true, Bool.not_eq_true'] at hname
     have hprint : printItems (v :: tl) defs =
@@ -100,22 +99,21 @@ theorem bodyLoop_items (vrs : List UValueReference) (defs : List UDefinition)
     simp only [List.length_cons, List.length_append] at hf
     obtain ⟨f, rfl⟩ : ∃ f, fuel = f + 1 := ⟨fuel - 1, by omega⟩
     have hty := length_tyTail_lt_printTy v.ty
-    have hvr := readValueReference_print v f (printItems tl defs) hv.1 hvnw.1 hvk.1 (by omega)
+    have hvr := readValueReference_print v f (printItems tl defs) hv.1 hvnw.1 (by omega)
     have hpeek : peekIsSep ':' (printTy v.ty ++ (.sep ':' :: .sep ':' :: .sep '=' ::
         (printLit v.value ++ printItems tl defs))) = false := by
       simp [printTy]
     rw [bodyLoop]
     simp only [eqTextIC_text, hname.1.1.1.1, hname.1.1.1.2, Bool.false_eq_true, if_false, hpeek,
-      hvr, FR.bind_ok, ih hv.2 hvnw.2 hvk.2 f (by omega)]
+      hvr, FR.bind_ok, ih hv.2 hvnw.2 f (by omega)]
     rfl
 
 /-- IMPORTS (if any), then the items -/
 theorem bodyLoop_print (is : List Import) (vrs : List UValueReference) (defs : List UDefinition)
     (hi : is.all importWf = true)
     (hv : vrs.all valueReferenceWf = true) (hvnw : vrs.all (fun v => tyNoWiden v.ty) = true)
-    (hvk : vrs.all (fun v => tyNoKwRef v.ty) = true)
     (hw : defs.all definitionWf = true)
-    (hnw : defs.all (fun d => tyNoWiden d.ty) = true) (hk : defs.all (fun d => tyNoKwRef d.ty) = true)
+    (hnw : defs.all (fun d => tyNoWiden d.ty) = true)
     (fuel : Nat) (hf : (printImports is ++ printItems vrs defs).length < fuel + 1) :
     bodyLoop fuel (printImports is ++ printItems vrs defs) =
       .ok { imports := is
@@ -123,7 +121,7 @@ theorem bodyLoop_print (is : List Import) (vrs : List UValueReference) (defs : L
             valueReferences := vrs.map canonValueReference } := by
   cases is with
   | nil =>
-    simpa [printImports] using bodyLoop_items vrs defs hv hvnw hvk hw hnw hk fuel
+    simpa [printImports] using bodyLoop_items vrs defs hv hvnw hw hnw fuel
       (by simpa [printImports] using hf)
   | cons i tl =>
     have hprint : printImports (i :: tl) = .text "IMPORTS" :: printImportsBody (i :: tl) := by
@@ -134,7 +132,7 @@ theorem bodyLoop_print (is : List Import) (vrs : List UValueReference) (defs : L
     rw [bodyLoop]
     simp only [eqTextIC_text, eqIC_IMPORTS_END, eqIC_IMPORTS, Bool.false_eq_true, if_false, if_true,
       importsLoop_print (i :: tl) hi f (printItems vrs defs) (by omega), FR.bind_ok,
-      bodyLoop_items vrs defs hv hvnw hvk hw hnw hk f (by omega)]
+      bodyLoop_items vrs defs hv hvnw hw hnw f (by omega)]
     simp
 
 /-! ### the header -/
@@ -157,12 +155,11 @@ theorem map_makeNameNice (is : List Import) (h : is.all (fun i => niceName i.«f
 
 /-- the whole module, for any sufficient recursion budget -/
 theorem parseModuleFuel_print (m : UModule) (hw : moduleWf m = true)
-    (hnw : moduleNoWiden m = true) (hk : moduleNoKwRef m = true) (hn : moduleNiceNames m = true)
+    (hnw : moduleNoWiden m = true) (hn : moduleNiceNames m = true)
     (fuel : Nat) (hf : (printTokens m).length < fuel + 1) :
     parseModuleFuel fuel (printTokens m) = .ok (canon m) := by
   simp only [moduleWf, Bool.and_eq_true] at hw
   simp only [moduleNoWiden, Bool.and_eq_true] at hnw
-  simp only [moduleNoKwRef, Bool.and_eq_true] at hk
   simp only [moduleNiceNames, Bool.and_eq_true, niceName, beq_iff_eq] at hn
   obtain ⟨⟨⟨hoid, himp⟩, hdefs⟩, hvrs⟩ := hw
   have hprint : printTokens m = .text m.name :: (printOid m.oid ++
@@ -172,8 +169,8 @@ theorem parseModuleFuel_print (m : UModule) (hw : moduleWf m = true)
     simp [printTokens, printHeader, printItems, printDefs]
   rw [hprint] at hf ⊢
   simp only [List.length_cons, List.length_append] at hf
-  have hbody := bodyLoop_print m.imports m.valueReferences m.definitions himp hvrs hnw.2 hk.2
-    hdefs hnw.1 hk.1 fuel (by simp only [List.length_append]; omega)
+  have hbody := bodyLoop_print m.imports m.valueReferences m.definitions himp hvrs hnw.2
+    hdefs hnw.1 fuel (by simp only [List.length_append]; omega)
   have hoidp := maybeReadOid_print m.oid hoid fuel
     (.text "DEFINITIONS" :: .text "AUTOMATIC" :: .text "TAGS" :: .sep ':' :: .sep ':' ::
         .sep '=' :: .text "BEGIN" :: (printImports m.imports ++
